@@ -1134,3 +1134,77 @@ RS.explanation += ' The SIGCHLD handler is installed before a child is created (
 RS.explanation += (' Shape tolerance: a private same-module helper that polls wait() itself (wait once, record the answer, return it) is '
                    'analysed in place (R1, R5, R10); where the same wait() answer is tested twice (in the helper and again by its caller) '
                    'the path clauses of R1 follow only paths that are consistent for one answer.')
+
+
+# ---------------------------------------------------------------------------------------
+# added after seed wave 4 (C13-s8: the simulated sigmask no longer told the parent that the caller was stopped / killed)
+@RS.rule('C13.R11', 'K-PASS+K-SIBLING', 'a child that stops or dies is always reported to its parent: every operation of the simulated kernel that can change '
+         'the state of a process (exit, kill, the delivery of a pending signal by sigmask or select) raises SIGCHLD for the parent on the path '
+         'where the process reports that its state changed - otherwise a parent blocked in wait sleeps for ever (all four siblings agree)')
+def r11(cx):
+    F = cx.F
+    import re as _re
+    NOTIFY = [_re.compile(r'system::r#virtual::raise_sigchld$')]
+    SETTERS = [_re.compile(r'process::Process::set_state$')]
+    n = 0
+    for root, bodies in sorted(F.by_root.items()):
+        if not (root.startswith('yash_env::system::r#virtual') or 'r#virtual::VirtualSystem' in root):
+            continue
+        if '::process::Process::' in root or root.endswith('r#virtual::raise_sigchld') or '::tests::' in root:
+            continue        # the process object reports; the kernel layer above it notifies
+        for b in bodies:
+            du = Q.DefUse(b)
+            reports = []      # (block, local holding the report)
+            for blk, j, st in b.stmts():
+                if st['k'] == 'assign' and any(isinstance(e, dict) and e.get('f') == 'process_state_changed'
+                                               for p_ in Q.rvalue_places(st['rv']) for e in (p_.get('p') or [])):
+                    base = next(p_['l'] for p_ in Q.rvalue_places(st['rv']) if any(isinstance(e, dict) and e.get('f') == 'process_state_changed' for e in (p_.get('p') or [])))
+                    reports.append((blk, st['lhs']['l'], b.loc(st), ('res', base)))
+            for blk, t in Q.find_calls(b, SETTERS):
+                reports.append((blk, t['dest']['l'], b.loc(t), ('set', blk)))
+            if not reports:
+                continue
+            notify = {nb for nb, nt in Q.find_calls(b, NOTIFY)}
+            handled = {}
+            for blk, loc_, where, src in reports:
+                n += 1
+                cx.fn(b.fn)
+                tl = Q.forward_taint(b, {loc_})
+                # the True edge(s) of a switch on the report
+                true_targets = []
+                for u in b.live_blocks():
+                    t_ = b.term(u)
+                    if t_['k'] != 'switch':
+                        continue
+                    dl = (Q.operand_place(t_['d']) or {}).get('l')
+                    if dl is None or dl not in tl or b.locals[dl].get('ty') != 'bool':
+                        continue
+                    # switchInt on a bool: the `else` edge (value != 0) is the true edge
+                    zero = [tgt for v, tgt in t_['ts'] if str(v) in ('0', 'false')]
+                    tgt_true = t_.get('else') if zero else None
+                    if tgt_true is None:
+                        tgt_true = next((tgt for v, tgt in t_['ts'] if str(v) in ('1', 'true')), None)
+                    if tgt_true is not None:
+                        true_targets.append(tgt_true)
+                ok = bool(true_targets) and all(Q.must_pass(b, [tgt], notify) is None for tgt in true_targets)
+                cx.site('%s: state-change report at %s: parent notified (raise_sigchld) on every path after the report is true: %s'
+                        % (b.fn, where, ok))
+                handled.setdefault(src, []).append((ok, bool(true_targets), where))
+            for src, lst in sorted(handled.items(), key=str):
+                if any(ok_ for ok_, has_, w_ in lst):
+                    continue        # one read of this report is acted upon (the others just hand the flag on)
+                where = lst[0][2]
+                true_targets = any(has_ for ok_, has_, w_ in lst)
+                ok = False
+                if not true_targets:
+                    cx.violation(root, 'state-change-not-reported', '%s obtains the report "the state of the process changed" and never acts on it: '
+                                 'the parent gets no SIGCHLD, so a shell blocked in wait / wait_for_subshell never learns that the child stopped or '
+                                 'died (`trap .. USR1; cmd & kill -USR1 $!; wait $!` deadlocks when the signal is delivered on unblocking)' % root,
+                                 loc=where)
+                elif not ok:
+                    cx.violation(root, 'state-change-without-sigchld', '%s can return after a process changed its state without raising SIGCHLD '
+                                 'for the parent' % root, loc=where)
+    cx.floor(n, 4, 'state-change reports handled by the simulated kernel (exit, kill, sigmask, select)')
+
+
+RS.explanation += ' Every state change of a simulated process is followed by SIGCHLD for its parent (R11).'
